@@ -20,6 +20,8 @@ import (
 	"syscall"
 	"time"
 
+	"golang.org/x/text/unicode/norm"
+
 	"github.com/mutagen-io/mutagen/pkg/filesystem"
 	"github.com/mutagen-io/mutagen/pkg/filesystem/behavior"
 	"github.com/mutagen-io/mutagen/pkg/synchronization/core"
@@ -417,6 +419,8 @@ var recheckModes = []string{"exact", "exact", "extras", "extras", "parents", "de
 func c13Case(c *vlib.Ctx, cseed int64, upto int) {
 	r := rand.New(rand.NewSource(cseed))
 	g := &gen{r: r, budget: 14 + r.Intn(30), rich: r.Intn(4) == 0}
+	decompCase := r.Intn(7) == 0
+	g.nfd = decompCase
 	base := c.TempDir("c13-")
 	defer os.RemoveAll(base)
 	root := filepath.Join(base, "root")
@@ -431,6 +435,11 @@ func c13Case(c *vlib.Ctx, cseed int64, upto int) {
 	cfg := config{Sym: symNames[r.Intn(3)], Perm: permNames[r.Intn(2)], Pres: probePreserves(base)}
 	if r.Intn(10) == 0 {
 		cfg = config{Sym: cfg.Sym, Perm: "portable", Pres: false, Forced: true}
+	}
+	if decompCase {
+		// a filesystem that decomposes Unicode: names are stored (and reported by the watcher)
+		// decomposed, the snapshot carries them recomposed
+		cfg = config{Sym: cfg.Sym, Perm: cfg.Perm, Pres: cfg.Pres, Decomp: true, Forced: true}
 	}
 	oldF, _ := walkRoot(root, faults)
 	b := realScan(root, cfg, faults, nil, nil, nil, nil)
@@ -504,38 +513,31 @@ func c13Case(c *vlib.Ctx, cseed int64, upto int) {
 			rlist = append(rlist, p)
 		}
 		sort.Strings(rlist)
-		var rtoks []any
+		rtoks := []any{} // as reported: on-disk form
+		rnfc := []any{}  // the NFC form of each (a fact about the bytes, like the walker's "nfc")
 		for _, p := range rlist {
-			recheck[rawPath(p)] = true
-			if p == "" {
-				rtoks = append(rtoks, []any{})
-			} else {
-				var comps []any
-				for _, t := range strings.Split(p, "\x00") {
-					comps = append(comps, t)
-				}
-				rtoks = append(rtoks, comps)
-			}
-		}
-		if rtoks == nil {
-			rtoks = []any{}
+			raw := rawPath(p)
+			recheck[raw] = true
+			rtoks = append(rtoks, pathToks(raw))
+			rnfc = append(rnfc, pathToks(norm.NFC.String(raw)))
 		}
 		acc := realScan(root, cfg, faults, b.snap, recheck, b.cache, b.icache)
 		cold := realScan(root, cfg, faults, nil, nil, nil, nil)
 		sampleDraw := r.Intn(60)
 		if upto < 0 || round == upto {
 			rec := map[string]any{
-				"ev":      "Accel",
-				"in":      map[string]any{"cseed": int(cseed), "round": round},
-				"cfg":     vlib.ToMap(cfg),
-				"mode":    mode,
-				"edits":   edits,
-				"old":     oldF,
-				"new":     newF,
-				"recheck": rtoks,
-				"base":    encScan(b),
-				"accel":   encScan(acc),
-				"cold":    encScan(cold),
+				"ev":          "Accel",
+				"in":          map[string]any{"cseed": int(cseed), "round": round},
+				"cfg":         vlib.ToMap(cfg),
+				"mode":        mode,
+				"edits":       edits,
+				"old":         oldF,
+				"new":         newF,
+				"recheck":     rtoks,
+				"recheck_nfc": rnfc,
+				"base":        encScan(b),
+				"accel":       encScan(acc),
+				"cold":        encScan(cold),
 			}
 			c.Emit(rec)
 			c.Eval()
@@ -595,6 +597,10 @@ func run(c *vlib.Ctx) error {
 		for i := 0; i < n; i++ {
 			c13Case(c, subSeed(c.Seed, 1_000_000+i), -1)
 		}
+		// growth: the same statement on the real local endpoint in recursive-watch mode
+		for i, m := 0, argInt(c, "endpoints", 8); i < m; i++ {
+			endpointCase(c, subSeed(c.Seed, 2_000_000+i), -1)
+		}
 	default:
 		return fmt.Errorf("scan driver does not know property %s", c.Prop)
 	}
@@ -614,7 +620,11 @@ func replay(c *vlib.Ctx) error {
 	case "C12":
 		c12Case(c, num("cseed"), int(num("cfg")))
 	case "C13":
-		c13Case(c, num("cseed"), int(num("round")))
+		if k, _ := in["kind"].(string); k == "endpoint" {
+			endpointCase(c, num("cseed"), int(num("step")))
+		} else {
+			c13Case(c, num("cseed"), int(num("round")))
+		}
 	default:
 		return fmt.Errorf("scan driver does not know property %s", c.Prop)
 	}
